@@ -703,6 +703,10 @@ pub mod inner {
             &mut self.data[idx]
         }
     }
+
+    #[cfg(kani)]
+    #[path = "/verif/kani/buf.rs"]
+    pub(crate) mod verif_kani;
 }
 
 #[cfg(test)]
